@@ -701,11 +701,13 @@ func prefixExpansionShape(fn *ssa.Function) (bool, string) {
 	return false, fmt.Sprintf("expansion parts %v do not match a specified shape", kinds)
 }
 
+var c03InjectRule = "C03.inject"
+
 func c03inject(p *Program, r *Report) {
 	// CashAddr decode table: a package-level int8 array indexed by input characters in DecodeCashAddress
 	dc := p.Func("", "DecodeCashAddress")
 	if dc == nil {
-		r.Unresolved("C03.inject", "DecodeCashAddress")
+		r.Unresolved(c03InjectRule, "DecodeCashAddress")
 		return
 	}
 	var table *ssa.Global
@@ -721,12 +723,12 @@ func c03inject(p *Program, r *Report) {
 		}
 	}
 	if table == nil {
-		r.Unresolved("C03.inject", "CashAddr decode table")
+		r.Unresolved(c03InjectRule, "CashAddr decode table")
 		return
 	}
 	vals, ok := p.constIntTable(table)
 	if !ok {
-		r.Undecided("C03.inject", FnName(dc), "decode table is constant", dc.Pos(), "initialiser is not a constant composite literal")
+		r.Undecided(c03InjectRule, FnName(dc), "decode table is constant", dc.Pos(), "initialiser is not a constant composite literal")
 		return
 	}
 	// the encoder's alphabet: constant string indexed on the encode path
@@ -744,7 +746,7 @@ func c03inject(p *Program, r *Report) {
 			}
 		}
 	}
-	r.Add("C03.inject", "bchutil", "CashAddr alphabet equals the specification's", dc.Pos(), alpha == bip173Charset, "32 distinct symbols")
+	r.Add(c03InjectRule, "bchutil", "CashAddr alphabet equals the specification's", dc.Pos(), alpha == bip173Charset, "32 distinct symbols")
 	bad := ""
 	n := 0
 	if len(alpha) == 32 {
@@ -773,7 +775,7 @@ func c03inject(p *Program, r *Report) {
 	} else {
 		bad = "alphabet not found"
 	}
-	r.Add("C03.inject", FnName(dc), "symbol decoding is injective: the table inverts the alphabet (both cases), everything else is −1", dc.Pos(), bad == "" && p.assignedOnlyByInit(table),
+	r.Add(c03InjectRule, FnName(dc), "symbol decoding is injective: the table inverts the alphabet (both cases), everything else is −1", dc.Pos(), bad == "" && p.assignedOnlyByInit(table),
 		fmt.Sprintf("%d entries agree; %s", n, bad))
 	// mixed case (see C02.guards / C07.strict): repeat the structural fact for both decoders
 	okCase := false
@@ -793,5 +795,5 @@ func c03inject(p *Program, r *Report) {
 			}
 		}
 	}
-	r.Add("C03.inject", FnName(dc), "mixed-case CashAddr strings reject", dc.Pos(), okCase, "both case flags set leads only to error returns")
+	r.Add(c03InjectRule, FnName(dc), "mixed-case CashAddr strings reject", dc.Pos(), okCase, "both case flags set leads only to error returns")
 }
